@@ -42,6 +42,8 @@ SHAPES = {
     'paren-commas': lambda d: 'select ' + '(a, ' * d + '1' + ')' * d,
     'brack-ops': lambda d: 'select a' + '[1 + a' * d + '[1]' + ']' * d,
     'case-ops': lambda d: 'select ' + 'case when a = 1 then 1 + ' * d + '1' + ' end' * d,
+    'subq-where': lambda d: 'select a from t where a in (select a from t where a in (' * (d // 2) + 'select 1' + '))' * (d // 2),
+    'subq-list': lambda d: 'select a, (select b, (' * (d // 2) + 'select 1' + ') from u) from t' * (d // 2),
     'create-begin': lambda d: 'create procedure p() ' + 'begin ' * d + 'select 1; ' + 'end; ' * d,
 }
 
